@@ -60,21 +60,26 @@ int moveToImageExtension(fitsfile* fits, const char* name, int* status){
 		prevstart = headstart;
 		if (hdu == 1 || type != IMAGE_HDU)
 			continue;
-		char extname[FLEN_VALUE];
-		int tstatus = 0;
-		if (fits_read_key(fits, TSTRING, "EXTNAME", extname, NULL, &tstatus)) {
-			if (tstatus == KEY_NO_EXIST || tstatus == VALUE_UNDEFINED) {
-				fits_clear_errmark();
-				fits_write_errmark();
-				continue;
+		//an extension is known by its EXTNAME or, as for fits_movnam_hdu,
+		//by its HDUNAME
+		static const char* const namekeys[2] = {"EXTNAME", "HDUNAME"};
+		for (int k = 0; k < 2; k++) {
+			char extname[FLEN_VALUE];
+			int tstatus = 0;
+			if (fits_read_key(fits, TSTRING, namekeys[k], extname, NULL, &tstatus)) {
+				if (tstatus == KEY_NO_EXIST || tstatus == VALUE_UNDEFINED) {
+					fits_clear_errmark();
+					fits_write_errmark();
+					continue;
+				}
+				return (*status = tstatus);
 			}
-			return (*status = tstatus);
-		}
-		int match = 0, exact = 0;
-		fits_compare_str(const_cast<char*>(name), extname, CASEINSEN, &match, &exact);
-		if (match) {
-			fits_clear_errmark();
-			return (*status = 0);
+			int match = 0, exact = 0;
+			fits_compare_str(const_cast<char*>(name), extname, CASEINSEN, &match, &exact);
+			if (match) {
+				fits_clear_errmark();
+				return (*status = 0);
+			}
 		}
 	}
 }
